@@ -18,7 +18,8 @@ R_, HASANTA, CHANDRA, ZWJ, ZWNJ, LENGTH_MARK, OU = "র", "্", "ঁ", "‍", "
 PAIRS = {s: chr(ord(s) - 0x38) for s in classes.SIGNS10}          # Unicode's own sign ↔ independent vowel pairing …
 PAIRS.update({"\u09c4": "\u09e0", "\u09e2": "\u098c", "\u09e3": "\u09e1"})      # … the Sanskrit signs are paired out of line: ৄ ↔ ৠ, ৢ ↔ ঌ, ৣ ↔ ৡ
 TABLE = dict(PAIRS)      # rows demanded: narrowed in run() to the signs the vowel-sign predicate accepts (at least the ten); rows allowed: every pair
-CORE_MARKS = set(".,;:?!()[]{}/-\"'\u0964\u0965")
+# "punctuation": every ASCII punctuation character and the two Dari marks (any layout file may assign any of them to a key)
+CORE_MARKS = set("!\"#$%&'()*+,-./:;<=>?@[\\]^_`{|}~\u0964\u0965")
 
 
 def t_and(*xs):
